@@ -19,7 +19,9 @@ From Coercion.Query Require Import Rows Query Spec QueryCheck."""
 
 HINT = {("sqlite", "exists", "value"): "S1-like: Exists answers wrongly (original defect S1: the statement compared the literal 'id', always false)",
         ("sqlite", "search", "stream-error"): "S2-like: the Search statement fails (original defect S2: IN (?,?)s syntax error for ByIDs / ByGroupIDs)",
-        ("sqlite", "search", "wrong-items"): "S2-like: Search returns the wrong plans (original defect S2: several statuses joined with AND: empty result)",
+        ("sqlite", "search", "wrong-items"): "Search returns the wrong plans, or the right plans with wrong contents (original defect S2 was of this kind: several statuses joined with AND gave an empty result)",
+        ("sqlite", "list", "state-time-1754"): "S8-like: List returns 1754-08-30T22:43:41.128654848Z (the wrapped UnixNano of the zero time) as State.Start/End of a plan that has none",
+        ("sqlite", "search", "state-time-1754"): "S8-like: Search returns 1754-08-30T22:43:41.128654848Z (the wrapped UnixNano of the zero time) as State.Start/End of a plan that has none",
         ("sqlite", "list", "never-closed"): "S3-like: the List stream is never closed",
         ("sqlite", "search", "never-closed"): "the Search stream is never closed",
         ("crash", None, "value"): "a background goroutine of the code under test killed the process (original defect S3: List used the connection after returning it to the pool)",
@@ -150,7 +152,10 @@ def run(ctx):
         "UpdatePlan is only called with a plan object that agrees with the stored plan in id, group, name, description (what the engine does)",
         "cosmosdb Search/List through the package fake are only compared as sets and only for id filters / limit <= 0: the fake ignores the "
         "query text, ORDER BY and (by a type assertion on int) panics on @limit; the text ties (hooks VerifSearchQuery, VerifListQuery) cover what the real service would be sent",
-        "NeverClosed is observed with a 2 s idle deadline; State.Start / State.End of results are not compared (C13)",
+        "NeverClosed is observed with a 2 s idle deadline",
+        "sqlite theorems about result contents assume the State times written are representable (zero time or int64 nanoseconds); "
+        "the sqlite specification has the codec's documented loss: instants at or before the Unix epoch read back as the zero time, "
+        "a submit time before the epoch is stored as the epoch",
         "Not covered: the real Cosmos service; SQLite connection-pool exhaustion by consumers that abandon a stream; context cancellation mid-stream",
     ])
 
@@ -166,5 +171,7 @@ def classify(st):
             return "stream-error"
         if not o.get("closed"):
             return "never-closed"
+        if any(str(it.get(k)) == "-6795364578871345152" for it in (o.get("items") or []) for k in ("Start", "End")):
+            return "state-time-1754"
         return "wrong-items"
     return "value"
